@@ -89,7 +89,9 @@ func vectors(g *GenCtx) {
 	for _, name := range []string{"xkcp-kravatte.txt", "xkcp.txt", "xkcp-sanse.txt"} {
 		raw, err := os.ReadFile(filepath.Join(dir, name))
 		if err != nil {
-			continue
+			// the published vectors anchor the model: without them the check must not pass
+			fmt.Fprintln(os.Stderr, "cannot read vector file:", err)
+			os.Exit(1)
 		}
 		sanse := strings.Contains(name, "sanse")
 		var pt, ad, wrapped, kravatin string
